@@ -450,8 +450,127 @@ where
         } else if size == 0 && align <= M {
             rep.inc("zst_cache_declined");
         }
+        // weak round trip: the target is reachable (we hold `g`), so it upgrades to the same object
+        let w = Gc::downgrade(g);
+        rep.inc("zst_weak_checks");
+        match w.upgrade(mc) {
+            Some(u) if Gc::ptr_eq(u, g) && !w.is_dropped() => {}
+            Some(_) => rep.viol("M-convert", case, "convert", format!("weak pointer to a live {} from ZstCache<{}> upgrades to a different object or reports dropped", tname, M)),
+            None => rep.viol("M-convert", case, "convert", format!("weak pointer to a live {} from ZstCache<{}> does not upgrade (is_dropped {})", tname, M, w.is_dropped())),
+        }
         root.keep.push(Gc::erase(g));
     }
+}
+
+// ---------------------------------------------------------------------------------------------
+// zero-sized payloads allocated directly: strong / weak / dynamic-root lifecycle
+
+#[derive(Default)]
+pub struct Marker;
+static_collect!(Marker);
+
+#[derive(Collect)]
+#[collect(no_drop)]
+struct ZlRoot<'gc> {
+    strong: Vec<Gc<'gc, ()>>,
+    weak: Vec<GcWeak<'gc, ()>>,
+    set: gc_arena::DynamicRootSet<'gc>,
+}
+
+fn zst_payload_case<T: Default + 'static + for<'a> Collect<'a>>(rep: &mut Rep, tname: &str, dz_key: Option<&'static str>) {
+    let case = format!("zst-payload:{}", tname);
+    if !rep.take(&case) {
+        return;
+    }
+    let _ = dz_take();
+    let mut msgs: Vec<String> = Vec::new();
+    let mut arena = Arena::<Rootable![ZlRoot<'_>]>::new(|mc| ZlRoot { strong: vec![], weak: vec![], set: gc_arena::DynamicRootSet::new(mc) });
+    // 1. strongly held + weak pointer: queried asleep, fully marked (inside finalize), at sweep start
+    let addr = arena.mutate_root(|mc, root| {
+        let g = Gc::new(mc, T::default());
+        root.strong.push(Gc::erase(g));
+        root.weak.push(Gc::downgrade(Gc::erase(g)));
+        Gc::as_ptr(g) as *const u8 as usize
+    });
+    let mut query = |arena: &mut Arena<Rootable![ZlRoot<'_>]>, when: &str, msgs: &mut Vec<String>| {
+        let (up, dropped, same) = arena.mutate(|mc, root| {
+            let w = root.weak[0];
+            let u = w.upgrade(mc);
+            (u.is_some(), w.is_dropped(), u.map(|u| Gc::as_ptr(u) as *const u8 as usize == addr).unwrap_or(false))
+        });
+        rep.inc("zst_weak_checks");
+        if !up || dropped || !same {
+            msgs.push(format!("{}: weak pointer to a strongly reachable {}: upgrade {} (same object {}), is_dropped {}", when, tname, up, same, dropped));
+        }
+    };
+    query(&mut arena, "asleep", &mut msgs);
+    if let Some(m) = arena.finish_marking() {
+        let (dead, res) = m.finalize(|fc, root| (root.weak[0].is_dead(fc), root.weak[0].resurrect(fc).is_some()));
+        if dead || !res {
+            msgs.push(format!("finalize: weak pointer to a strongly reachable {}: is_dead {}, resurrect {}", tname, dead, res));
+        }
+    }
+    query(&mut arena, "marked", &mut msgs);
+    arena.finish_cycle();
+    arena.finish_cycle();
+    query(&mut arena, "after two cycles", &mut msgs);
+    // 2. kept alive by a dynamic-root handle only
+    let handle = arena.mutate_root(|mc, root| {
+        let g = root.strong.pop().unwrap();
+        // (typed again: the handle is stashed as its original type)
+        let typed: Gc<'_, T> = unsafe { Gc::cast::<T>(g) };
+        root.set.stash::<Rootable![T]>(mc, typed)
+    });
+    for round in 0..2 {
+        if round == 1 {
+            // stashed while the arena is fully marked
+            let _ = arena.finish_marking();
+        }
+        arena.finish_cycle();
+        arena.finish_cycle();
+        let ok = arena.mutate(|mc, root| {
+            let f = root.set.fetch(&handle);
+            let w = root.weak[0];
+            Gc::as_ptr(f) as *const u8 as usize == addr && w.upgrade(mc).is_some() && !w.is_dropped()
+        });
+        rep.inc("zst_handle_checks");
+        if !ok {
+            msgs.push(format!("a {} kept alive only by a DynamicRoot handle: fetch / upgrade no longer give the original object (round {})", tname, round));
+        }
+        if let Some(k) = dz_key {
+            let n = dz_take().get(k).copied().unwrap_or(0);
+            if n != 0 {
+                msgs.push(format!("a {} kept alive only by a DynamicRoot handle was destructed {} times", tname, n));
+            }
+        }
+    }
+    // 3. handle dropped: the value dies (once), the weak pointer says so
+    drop(handle);
+    arena.finish_cycle();
+    arena.finish_cycle();
+    let (up, dropped) = arena.mutate(|mc, root| (root.weak[0].upgrade(mc).is_some(), root.weak[0].is_dropped()));
+    if up || !dropped {
+        msgs.push(format!("after its last handle was dropped a {} is still upgradable ({}) / not reported dropped ({})", tname, up, !dropped));
+    }
+    let n_shell = arena.metrics().total_gc_count();
+    arena.mutate_root(|_, root| root.weak.clear());
+    arena.finish_cycle();
+    arena.finish_cycle();
+    if arena.metrics().total_gc_count() + 1 != n_shell {
+        msgs.push(format!("shell of the dead {} not released after its weak pointer was cleared ({} -> {})", tname, n_shell, arena.metrics().total_gc_count()));
+    }
+    drop(arena);
+    if let Some(k) = dz_key {
+        let n = dz_take().get(k).copied().unwrap_or(0);
+        if n != 1 {
+            msgs.push(format!("one {} was allocated but {} destructor runs were seen over the arena's life", tname, n));
+        }
+    }
+    for m in msgs {
+        rep.viol("M-convert", &case, "convert", m);
+    }
+    bad_events(rep, &case, "convert");
+    rep.case_done(&case, true, J::obj());
 }
 
 fn zst_case<const M: usize>(rep: &mut Rep)
@@ -549,6 +668,15 @@ pub fn run(rep: &mut Rep, seed: u64, big: bool) {
             chain_case(rep, seed, i, t);
         }
     }
+    zst_payload_case::<()>(rep, "()", None);
+    zst_payload_case::<Marker>(rep, "Marker", None);
+    zst_payload_case::<std::marker::PhantomData<u64>>(rep, "PhantomData<u64>", None);
+    zst_payload_case::<[u64; 0]>(rep, "[u64;0]", None);
+    zst_payload_case::<Z64>(rep, "Z64", None);
+    zst_payload_case::<DZ1>(rep, "DZ1", Some("DZ1"));
+    zst_payload_case::<DZ16>(rep, "DZ16", Some("DZ16"));
+    zst_payload_case::<gc_arena::Static<DZ8>>(rep, "Static<DZ8>", Some("DZ8"));
+    zst_payload_case::<u32>(rep, "u32 (control)", None);
     zst_case::<1>(rep);
     zst_case::<2>(rep);
     zst_case::<4>(rep);
